@@ -6,7 +6,7 @@ import networkx as nx
 from .gen import decode_node
 from .model import Ref
 
-ADD_OPS = ('add', 'add_from', 'path', 'star', 'cycle')
+ADD_OPS = ('add', 'add_from', 'path', 'star', 'cycle', 'tpath')
 
 
 def elements(op, nodes):
@@ -26,6 +26,9 @@ def elements(op, nodes):
         else:
             pairs = list(zip(seq, seq[1:] + [seq[0]]))
         return [(u, v, t, e) for u, v in pairs]
+    if k == 'tpath':     # a temporal chain: seq[i]-seq[i+1] at t0+i, as successive add_interaction calls
+        seq = [nodes[i] for i in op[1]]
+        return [(seq[i], seq[i + 1], op[2] + i, None) for i in range(len(seq) - 1)]
     if k == 'add_not':
         return [(nodes[op[1]], nodes[op[2]], None, None)]
     if k == 'add_from_not':
@@ -133,6 +136,9 @@ def call_real(G, nodes, op):
                 getattr(dn, 'add_' + k)(G, arg, t)
             else:
                 getattr(dn, 'add_' + k)(G, arg, t, e=e)
+        elif k == 'tpath':
+            for (u, v, t, e) in elements(op, nodes):
+                G.add_interaction(u, v, t)
         elif k == 'node':
             G.add_node(nodes[op[1]], **copy.deepcopy(op[2]))
         elif k == 'nodes_from':
